@@ -377,6 +377,42 @@ def _seed_global(c, salt):
     np.random.seed((c.get("gseed", 0) * 7 + salt) % (2 ** 31))
 
 
+def _hist_panels(c):
+    """the earlier (X, y) the SAME object is fitted on before the fit under observation"""
+    out = []
+    for h in c.get("hist") or []:
+        hc = dict(c, labels=h["labels"], xseed=h["xseed"], L=h.get("L", c["L"]), ytest=h["labels"][:1], yas=h.get("yas", "np"))
+        hc.pop("dup", None)
+        Xh, yh, _, _ = _panel(hc)
+        if c.get("algo") == "reg":
+            yh = np.array([float(v) for v in h["labels"]])
+        out.append((Xh, yh))
+    return out
+
+
+def _fit_history(c, clf):
+    """refit history: fit the same object on earlier data first (an earlier fit may legitimately raise)"""
+    for k, (Xh, yh) in enumerate(_hist_panels(c)):
+        _seed_global(c, 11 + k)
+        _call(lambda: clf.fit(Xh, yh))
+
+
+def _fresh_reference(c, o, make, Xtr, ytr, Xte, reg=False):
+    """a NEW object fitted once on the last training data, same seeds: what the refitted object must equal"""
+    if not c.get("hist"):
+        return
+    ref = make()
+    _seed_global(c, 1)
+    _, err = _call(lambda: ref.fit(Xtr, ytr))
+    o["fresh_fit_err"] = err
+    if err:
+        return
+    o["fresh_classes"] = None if reg else list(ref.classes_)
+    _seed_global(c, 2)
+    val, err = _call(lambda: (ref.predict(Xte) if reg else ref.predict_proba(Xte)))
+    o["fresh_out"], o["fresh_out_err"] = (None if err else np.array(val)), err
+
+
 def _obs_clf(c):
     Xtr, ytr, Xte, yte = _panel(c)
     algo = c["algo"]
@@ -385,9 +421,11 @@ def _obs_clf(c):
     if algo == "reg":
         ytr = np.array([float(v) for v in c["labels"]])
         o["ytr"] = list(ytr)
+    _fit_history(c, clf)
     _seed_global(c, 1)
     _, err = _call(lambda: clf.fit(Xtr, ytr))
     o["fit_err"] = err
+    _fresh_reference(c, o, lambda: _make(c), Xtr, ytr, Xte, reg=(algo == "reg"))
     if err:
         return o
     o["classes"] = None if algo == "reg" else list(clf.classes_)
@@ -447,8 +485,11 @@ def _obs_indiv(c):
     Xtr, ytr, Xte, yte = _panel(c)
     clf = _make(dict(c, algo="indiv"))
     o = {"ytr": list(np.asarray(ytr)), "n_test": len(Xte)}
+    _fit_history(c, clf)
+    _seed_global(c, 1)
     _, err = _call(lambda: clf.fit(Xtr, ytr))
     o["fit_err"] = err
+    _fresh_reference(c, o, lambda: _make(dict(c, algo="indiv")), Xtr, ytr, Xte)
     if err:
         return o
     o["classes"] = list(clf.classes_)
@@ -479,8 +520,28 @@ def _obs_colens(c):
     K = _classes()
     Xtr, ytr, Xte, yte = _panel(c)
     _CE_LOG.clear()
+
+    def build():
+        return ColumnEnsembleClassifier(_ests())
+
+    def _ests():
+        ests = []
+        for i, (drop, key, inner) in enumerate(c["entries"]):
+            if drop:
+                est = "drop"
+            else:
+                if inner == "tsf":
+                    base = TimeSeriesForestClassifier(n_estimators=3, random_state=c.get("rs", 0) + i)
+                elif inner == "rise":
+                    base = RandomIntervalSpectralForest(n_estimators=3, min_interval=4, acf_lag=3, acf_min_values=2,
+                                                        random_state=c.get("rs", 0) + i)
+                else:
+                    base = K["CentroidMember"](sharp=1 + i % 3)
+                est = K["SpyMember"](inner=base, tag="m%d" % i)
+            ests.append(("e%d" % i, est, _entry_key(key)))
+        return ests
     ests = []
-    for i, (drop, key, inner) in enumerate(c["entries"]):
+    for i, (drop, key, inner) in enumerate([]):
         if drop:
             est = "drop"
         else:
@@ -493,8 +554,11 @@ def _obs_colens(c):
                 base = K["CentroidMember"](sharp=1 + i % 3)
             est = K["SpyMember"](inner=base, tag="m%d" % i)
         ests.append(("e%d" % i, est, _entry_key(key)))
-    clf = ColumnEnsembleClassifier(ests)
     o = {"ytr": list(np.asarray(ytr)), "yte": list(yte), "n_test": len(Xte), "names": list(Xtr.columns)}
+    _fresh_reference(c, o, build, Xtr, ytr, Xte)        # first: the spy log must end with the object under observation
+    _CE_LOG.clear()
+    clf = build()
+    _fit_history(c, clf)
     _, err = _call(lambda: clf.fit(Xtr, ytr))
     o["fit_err"] = err
     if err:
@@ -525,6 +589,8 @@ def _obs_base(c):
     Xtr, ytr, Xte, yte = _panel(cc)
     clf = K["BaseStub"](P=P)
     o = {"ytr": list(np.asarray(ytr)), "yte": list(yte), "proba": np.array(P, dtype=float), "n_test": len(Xte)}
+    for (Xh, yh) in _hist_panels(cc):
+        _call(lambda: clf.fit(Xh, yh))
     _, err = _call(lambda: clf.fit(Xtr, ytr))
     o["fit_err"] = err
     if err:
@@ -561,12 +627,18 @@ def _obs_tsfit(c):
     clf = cls(n_estimators=c["nest"], random_state=rng, **kw)
     if c.get("reg"):
         ytr = np.arange(len(ytr)) / 2.0
+    for Lh in c.get("histL") or []:                       # refit history: the same object fitted on other lengths first
+        Xh, yh, _, _ = _panel(dict(cc, L=Lh, xseed=c["xseed"] + Lh))
+        if c.get("reg"):
+            yh = np.arange(len(yh)) / 2.0
+        _call(lambda: clf.fit(Xh, yh))
+    start = len(rng.calls)
     _, err = _call(lambda: clf.fit(Xtr, ytr))
     o = {"fit_err": err, "nint": int(clf.n_intervals), "minint": int(clf.min_interval)}
     ivs = [np.array(iv).tolist() for iv in clf.intervals_]
     need = 2 * o["nint"] * c["nest"]
-    o["calls"] = rng.calls[:need]
-    o["complete"] = len(ivs) == c["nest"] and len(rng.calls) >= need
+    o["calls"] = rng.calls[start:start + need]
+    o["complete"] = (not (err and len(rng.calls) - start < need)) and len(ivs) == c["nest"] and len(rng.calls) - start >= need
     o["ivs"] = ivs
     return o
 
